@@ -222,20 +222,16 @@ func pad8min(l, avail int) int {
 	return p
 }
 
-func runC02(c *vlib.Check) {
-	c.Rule = "binary: (i) header grammar — single items with every combination of tag {registered, 0, 0x54FFFF} x type byte {0..11, 0xFF} x declared length {0,1,3,4,7,8,9,15,16, true, true±1, true±8, 2^31-1, 2^32-1} x " +
-		"value pattern x true length, alone / after a sibling / nested in structures; (ii) every single structural deviation {retype, every length, retag, delete, duplicate, swap, flip first bit, empty value, " +
-		"non-zero padding, no padding, truncation at every offset} of the encodings of the 54 baseline messages, of every attribute, key block, credential and object, and of generic trees; " +
-		"XML/JSON: per-node deviations {type name, value lexical alternatives, attribute removed, JSON kind replaced, non-string tag, non-object node/root} and truncation at every byte offset; " +
-		"targets: generic value, request/response message, the four payloads with hand-written decoders, attribute, key block, credential; entry points Unmarshal*, Stream.Recv, HTTP handler. distinct = distinct inputs"
-	c.Assumptions = []string{"byte strings that are neither in the header grammar nor single (thorough: double) deviations of valid encodings are not covered",
-		"non-termination is decided by a 20 s watchdog per input (five orders of magnitude above the normal cost)"}
-	type job struct {
-		class  string
-		data   []byte
-		codec  string
-		target []int // indexes into decTargets
-	}
+// c02job is one decoder input with the decoder it is meant for and the targets it is decoded into.
+type job struct {
+	class  string
+	data   []byte
+	codec  string
+	target []int // indexes into decTargets
+}
+
+// c02Corpus builds the de-duplicated corpus of decoder inputs (shared by C02 and C18).
+func c02Corpus(thorough bool) []job {
 	allT := []int{}
 	for i := range decTargets {
 		allT = append(allT, i)
@@ -245,7 +241,7 @@ func runC02(c *vlib.Check) {
 		jobs = append(jobs, job{class, data, codec, targets})
 	}
 	// (i) header grammar -> generic value, attribute (a structure target) and request message
-	enum.HeaderGrammar(c.Thorough(), func(desc string, data []byte) { add("ttlv", "grammar:"+desc, data, []int{0, 7, 1}) })
+	enum.HeaderGrammar(thorough, func(desc string, data []byte) { add("ttlv", "grammar:"+desc, data, []int{0, 7, 1}) })
 	// (ii) deviations of valid encodings
 	proj := &msg.Projector{Ver: [2]int{1, 4}, Gate: true}
 	baseline := func(v any, targets []int) {
@@ -322,7 +318,7 @@ func runC02(c *vlib.Check) {
 		}
 	})
 	// (iii) text documents
-	c02TextJobs(c.Thorough(), func(codec, class string, doc []byte, targets []int) { add(codec, class, doc, targets) })
+	c02TextJobs(thorough, func(codec, class string, doc []byte, targets []int) { add(codec, class, doc, targets) })
 
 	// de-duplicate inputs per (codec, targets)
 	seen := map[string]bool{}
@@ -336,6 +332,18 @@ func runC02(c *vlib.Check) {
 		uniq = append(uniq, j)
 	}
 	jobs = uniq
+	return jobs
+}
+
+func runC02(c *vlib.Check) {
+	c.Rule = "binary: (i) header grammar — single items with every combination of tag {registered, 0, 0x54FFFF} x type byte {0..11, 0xFF} x declared length {0,1,3,4,7,8,9,15,16, true, true±1, true±8, 2^31-1, 2^32-1} x " +
+		"value pattern x true length, alone / after a sibling / nested in structures; (ii) every single structural deviation {retype, every length, retag, delete, duplicate, swap, flip first bit, empty value, " +
+		"non-zero padding, no padding, truncation at every offset} of the encodings of the 54 baseline messages, of every attribute, key block, credential and object, and of generic trees; " +
+		"XML/JSON: per-node deviations {type name, value lexical alternatives, attribute removed, JSON kind replaced, non-string tag, non-object node/root} and truncation at every byte offset; " +
+		"targets: generic value, request/response message, the four payloads with hand-written decoders, attribute, key block, credential; entry points Unmarshal*, Stream.Recv, HTTP handler. distinct = distinct inputs"
+	c.Assumptions = []string{"byte strings that are neither in the header grammar nor single (thorough: double) deviations of valid encodings are not covered",
+		"non-termination is decided by a 20 s watchdog per input (five orders of magnitude above the normal cost)"}
+	jobs := c02Corpus(c.Thorough())
 	w := &c02watch{current: map[int]c02running{}}
 	var done int64
 	stopWatch := make(chan struct{})
